@@ -73,8 +73,8 @@ def lookup(table, u):
 
 
 class Walker(object):
-    def __init__(self, cfg, where):
-        self.c, self.where = cfg, where
+    def __init__(self, cfg, where, klass=None):
+        self.c, self.where, self.klass = cfg, where, klass
         self.newvars = set()      # local names bound to the object the constructor call created
 
     def err(self, node, msg):
@@ -162,6 +162,26 @@ class Walker(object):
             return []
         self.err(t, 'unrecognised assignment target')
 
+    def const_test(self, test):
+        """`self.<m>(...)` where <m> is a method of the SAME class whose whole body is `return True` / `return
+        False` (a hook subclasses override; the pinned function is the one instances of this class run): the value
+        of the test for this class, else None.  The arguments must not touch shared state."""
+        if self.klass is None or not isinstance(test, ast.Call) or not isinstance(test.func, ast.Attribute) \
+                or not isinstance(test.func.value, ast.Name) or test.func.value.id != 'self':
+            return None
+        defs = [n for n in self.klass.body if isinstance(n, ast.FunctionDef) and n.name == test.func.attr]
+        if len(defs) != 1 or defs[0].decorator_list:
+            return None
+        body = [st for st in defs[0].body
+                if not (isinstance(st, ast.Expr) and isinstance(st.value, ast.Constant) and isinstance(st.value.value, str))]
+        if len(body) != 1 or not isinstance(body[0], ast.Return) or not isinstance(body[0].value, ast.Constant) \
+                or not isinstance(body[0].value.value, bool):
+            return None
+        for a in list(test.args) + [k.value for k in test.keywords]:
+            if self.scan(a):
+                self.err(test, 'shared access in the arguments of a constant hook')
+        return body[0].value.value
+
     # ---- statements
     def kind(self, test):
         if isinstance(test, ast.Compare) and len(test.ops) == 1:
@@ -223,6 +243,9 @@ class Walker(object):
         if isinstance(s, ast.Raise):
             return self.scan(s.exc) + self.scan(s.cause) + (['Raise'] if c.track_exits else [])
         if isinstance(s, ast.If):
+            cv = self.const_test(s.test)
+            if cv is not None:          # the test is a constant for instances of this class: no branch at all
+                return self.block(s.body if cv else s.orelse)
             t = self.scan(s.test)
             b = self.block(s.body)
             o = self.block(s.orelse)
@@ -452,7 +475,7 @@ def generate(repo):
     for key, rel, cls, fn in SITES:
         mod = tree(repo, rel)
         f = find_func(find_class(mod, cls, rel), fn, rel)
-        w = Walker(CFG[key], '%s:%s.%s' % (rel, cls, fn))
+        w = Walker(CFG[key], '%s:%s.%s' % (rel, cls, fn), find_class(mod, cls, rel))
         sk[key] = seq(w.block(f.body))
 
     wsgi = tree(repo, 'spyne/server/wsgi.py')
